@@ -124,7 +124,8 @@ theorem C02_partial (F : BodyFn) (P : Project) (cfg : Cfg) (w : World) (picks : 
     rcases this with h | h <;> cases h
   · rw [hw] at hc ⊢
     rw [hr] at hup
-    exact final_scratch hwf (graphOK_of_createDag hwf hdag) hdry hso hloop rfl hc t hup t ht (UpTo.refl _)
+    have hg := graphOK_of_createDag hwf hdag
+    exact final_scratch hwf hg hdry hso hloop rfl (inv_of_coherent hwf hg hc) t hup t ht (UpTo.refl _)
 
 /-- **C02_inputs_untouched.** A build changes no file that no task produces (inputs, module
 files): the contents `Scratch` reads after the build are the ones the user left before it. -/
